@@ -188,7 +188,7 @@ class Builder:
 # ------------------------------------------------------------------ known findings
 def load_known():
     out = []
-    for p in [os.path.join(VERIF, 'known_findings.json')] + sorted(glob.glob(os.path.join(VERIF, 'known_findings.d', '*.json'))):   # fragments are also merged into the json by gen_known.py
+    for p in [os.path.join(VERIF, 'known_findings.json')]:      # the one committed list; pylib/gen_known.py merges known_findings.d/*.json into it
         try:
             out += json.load(open(p)).get('findings', [])
         except Exception as e:
